@@ -472,6 +472,13 @@ fn run_schedule_mode(seed: u64, free: bool) -> Outcome {
             submitter: slot.clone(),
         }),
     ));
+    // in half of the schedules the backend has been served before and went away (metadata removed the
+    // node, every handle to its queue was dropped): the map then holds a dead entry for the address,
+    // and the controller and the senders must still end up with one and the same queue
+    if seed % 2 == 1 {
+        let earlier = map.get_or_create("10.0.0.1:6000".to_string());
+        drop(earlier);
+    }
     let ctrl = map.get_or_create("10.0.0.1:6000".to_string());
     let factory = TaskBlockingQueueSenderFactory::new(map.clone());
     *slot.lock() = Some(Arc::new(Submitter {
